@@ -5,7 +5,9 @@
 (*   foreign local edit (untracked origin) | remote edit by replica 2 |     *)
 (*   delivery of that remote edit to replica 1                              *)
 (* for one tracked root type Kind (t = text, a = array with a nested map,   *)
-(* m = map with nested arrays).  Replica 1 owns the undo manager.           *)
+(* m = map with nested arrays, x = XML fragment: elements with attributes   *)
+(* and children, text nodes with characters and formatting).  Replica 1     *)
+(* owns the undo manager.                                                   *)
 (* An abstract content C (unique tokens) is kept so that the generated      *)
 (* addresses are meaningful; X resolves every address against the real      *)
 (* visible state (index clamped, inapplicable step = empty slot), so the    *)
@@ -17,12 +19,21 @@
 (***************************************************************************)
 EXTENDS Undo, Json
 
-CONSTANTS Kind,        \* "t" | "a" | "m"
+CONSTANTS Kind,        \* "t" | "a" | "m" | "x"
           MaxE,        \* tracked edits (exactly)
           MaxUR,       \* undo / redo calls (exactly)
           MaxF,        \* foreign edits (at most): untracked local origin or remote
           UseStop,     \* ustop may replace one tick
-          Flat         \* Kind "m" only: one key (k1), primitive values only (deep histories of a single map entry)
+          Flat         \* Kind "m": one key (k1), primitive values only (deep histories of a single map entry);
+                       \* Kind "x": one element (created by the first edit), afterwards only its attribute "id" is set / removed
+          ,Pre         \* Kind "x" (and every kind with Shape "wiggle": C0 below): the tracked root already holds content of ANOTHER origin when the manager starts (the pipeline
+                       \* prepends the edits creating it): <e id=..>[text node], text node with two characters
+          ,Shape       \* "any" | "wiggle".  wiggle: the tracked root starts empty or (Pre) with prepared content (C0 below; the
+                       \* pipeline prepends the edits creating it), the program is  edit (tick edit)^(MaxE-1) ; U^p (R U)^j U U R R  with
+                       \* p \in 1..MaxP, j \in 1..MaxW: every edit is its own capture step, then an outer step is undone / redone /
+                       \* undone ... (whatever it re-creates is re-created j+1 times) BEFORE older steps are undone; foreign
+                       \* edits (MaxF) may be interleaved after the first call.  MaxUR is not used.
+          ,MaxP, MaxW
 
 VARIABLES C,      \* abstract content of the tracked root
           M,      \* abstract manager (Undo.tla), views = contents
@@ -34,9 +45,10 @@ VARIABLES C,      \* abstract content of the tracked root
           slots,  \* update slots used so far
           clean,  \* no foreign edit so far
           prev,   \* content before the last successful undo while nothing else happened since (design check)
+          wq,     \* Shape "wiggle": the undo (TRUE) / redo (FALSE) calls still to be made, chosen initially
           hist
-vars == <<C, M, tok, now, nE, nUR, nF, nEmpty, nStop, lastK, pend, slots, clean, prev, hist>>
-view == <<C, M, tok, now, nE, nUR, nF, nEmpty, nStop, lastK, pend, slots, clean, prev>>
+vars == <<C, M, tok, now, nE, nUR, nF, nEmpty, nStop, lastK, pend, slots, clean, prev, wq, hist>>
+view == <<C, M, tok, now, nE, nUR, nF, nEmpty, nStop, lastK, pend, slots, clean, prev, wq>>
 
 Min(a, b) == IF a < b THEN a ELSE b
 InsAt(s, i, x) == SubSeq(s, 1, i) \o x \o SubSeq(s, i + 1, Len(s))
@@ -45,7 +57,14 @@ RemAt(s, i) == SubSeq(s, 1, i - 1) \o SubSeq(s, i + 1, Len(s))      \* 1-based
 (* uniform value records (TLC cannot compare values of different shapes) *)
 Val(k, id, e, mm) == [k |-> k, id |-> id, e |-> e, mm |-> mm]
 NoVal == Val("-", 0, <<>>, <<0, 0>>)
-C0 == IF Kind = "m" THEN <<NoVal, NoVal>> ELSE <<>>
+C0 == IF Shape = "wiggle" /\ Pre /\ Kind = "t" THEN <<901, 902, 903>>
+      ELSE IF Shape = "wiggle" /\ Pre /\ Kind = "a"
+           THEN << Val("u", 901, <<>>, <<0, 0>>), Val("M", 902, <<>>, <<903, 0>>), Val("u", 904, <<>>, <<0, 0>>) >>
+      ELSE IF Shape = "wiggle" /\ Pre /\ Kind = "m" THEN << Val("A", 901, <<902, 903>>, <<0, 0>>), Val("u", 904, <<>>, <<0, 0>>) >>
+      ELSE IF Kind = "m" THEN <<NoVal, NoVal>>
+      ELSE IF Kind = "x" /\ Pre
+           THEN << Val("E", 901, << <<903, 1>> >>, <<902, 0>>), Val("T", 904, << <<905, 0>>, <<906, 0>> >>, <<0, 0>>) >>
+           ELSE <<>>
 
 KeyIx(key) == IF key \in {"k1"} THEN 1 ELSE 2           \* root map: k1 k2; nested map: k1 k3
 KeyName(root, ix) == IF ix = 1 THEN "k1" ELSE IF root THEN "k2" ELSE "k3"
@@ -54,10 +73,95 @@ FirstM(c) == IF \E i \in 1..Len(c) : c[i].k = "M" THEN CHOOSE i \in 1..Len(c) : 
 (* an operation: [op, p, i, n, key, k]; Apply mirrors the address resolution of X (clamping) *)
 Op(op, p, i, n, key, k) == [op |-> op, p |-> p, i |-> i, n |-> n, key |-> key, k |-> k]
 
+(* Kind "x".  Content = sequence of nodes.  Element: Val("E", id, children, <<attribute id, attribute cl>>), children =  *)
+(* <<token, 0 | 1>> (element | text node, opaque).  Text node: Val("T", id, characters, <<0, 0>>), characters =         *)
+(* <<token, format value>> (0 = unformatted).  X makes every node unique by value (fresh element name, fresh `uid`      *)
+(* attribute of a text node), like the tokens here.  Addresses: "#e0" / "#t0" = first element / first text node.        *)
+FirstK(c, k) == IF \E i \in 1..Len(c) : c[i].k = k THEN CHOOSE i \in 1..Len(c) : c[i].k = k /\ \A j \in 1..(i - 1) : c[j].k # k ELSE 0
+XKeyIx(key) == IF key = "id" THEN 1 ELSE 2
+XKeyName(ix) == IF ix = 1 THEN "id" ELSE "cl"
+RemRange(s, i, n) == SubSeq(s, 1, i) \o SubSeq(s, i + n + 1, Len(s))           \* 0-based start, n elements
+ClampDel(s, i, n) == LET i2 == Min(i, Len(s) - 1) IN RemRange(s, i2, Min(n, Len(s) - i2))
+ApplyX(c, o, t) ==
+  IF Len(o.p) = 1 THEN
+     (IF o.op = "ins" THEN InsAt(c, Min(o.i, Len(c)),
+                                 << IF o.k = "X" THEN Val("T", t, << <<t + 1, 0>> >>, <<0, 0>>) ELSE Val("E", t, <<>>, <<0, 0>>) >>)
+      ELSE IF Len(c) = 0 THEN c ELSE ClampDel(c, o.i, o.n))
+  ELSE IF o.p[2] = "#e0" THEN
+     LET f == FirstK(c, "E") IN
+     IF f = 0 THEN c
+     ELSE IF o.op = "set" THEN [c EXCEPT ![f].mm[XKeyIx(o.key)] = t]
+     ELSE IF o.op = "rem" THEN [c EXCEPT ![f].mm[XKeyIx(o.key)] = 0]
+     ELSE IF o.op = "ins" THEN [c EXCEPT ![f].e = InsAt(@, Min(o.i, Len(@)), << <<t, IF o.k = "X" THEN 1 ELSE 0>> >>)]
+     ELSE IF Len(c[f].e) = 0 THEN c ELSE [c EXCEPT ![f].e = ClampDel(@, o.i, o.n)]
+  ELSE
+     LET f == FirstK(c, "T") IN
+     IF f = 0 THEN c
+     ELSE LET e == c[f].e
+              i2 == Min(o.i, Len(e))
+          IN IF o.op = "ins" THEN [c EXCEPT ![f].e = InsAt(e, i2, << <<t, IF i2 = 0 THEN 0 ELSE e[i2][2]>> >>)]
+             ELSE IF Len(e) = 0 THEN c
+             ELSE IF o.op = "del" THEN [c EXCEPT ![f].e = ClampDel(e, o.i, o.n)]
+             ELSE LET j == Min(o.i, Len(e) - 1)                 \* fmt: characters j+1 .. j+n get the fresh format value
+                      m == Min(o.n, Len(e) - j)
+                  IN [c EXCEPT ![f].e = [x \in 1..Len(e) |-> IF x > j /\ x <= j + m THEN <<e[x][1], t>> ELSE e[x]]]
+
+MenuX(c) ==
+  LET fe == FirstK(c, "E")
+      ft == FirstK(c, "T")
+  IN IF Flat THEN
+       (IF fe = 0 THEN {Op("ins", <<"x">>, 0, 1, "", "E")}
+        ELSE {Op("set", <<"x", "#e0">>, 0, 1, "id", "u")}
+             \cup (IF c[fe].mm[1] # 0 THEN {Op("rem", <<"x", "#e0">>, 0, 1, "id", "u")} ELSE {}))
+     ELSE IF Pre THEN      \* trimmed menu (the prepared content makes every branch available from the first edit on)
+       {Op("ins", <<"x">>, 0, 1, "", "E"), Op("ins", <<"x">>, Len(c), 1, "", "X")}
+       \cup {Op("del", <<"x">>, i, 1, "", "u") : i \in {0, Len(c) - 1} \cap 0..(Len(c) - 1)}
+       \cup (IF Len(c) >= 2 THEN {Op("del", <<"x">>, 0, 2, "", "u")} ELSE {})
+       \cup (IF fe # 0
+             THEN {Op("set", <<"x", "#e0">>, 0, 1, "id", "u"), Op("ins", <<"x", "#e0">>, 0, 1, "", "E"),
+                   Op("ins", <<"x", "#e0">>, Len(c[fe].e), 1, "", "X")}
+                  \cup (IF c[fe].mm[1] # 0 THEN {Op("rem", <<"x", "#e0">>, 0, 1, "id", "u")} ELSE {})
+                  \cup (IF Len(c[fe].e) > 0 THEN {Op("del", <<"x", "#e0">>, 0, 1, "", "u")} ELSE {})
+             ELSE {})
+       \cup (IF ft # 0
+             THEN {Op("ins", <<"x", "#t0">>, i, 1, "", "u") : i \in {0, Len(c[ft].e)}}
+                  \cup (IF Len(c[ft].e) > 0 THEN {Op("del", <<"x", "#t0">>, 0, 1, "", "u"), Op("fmt", <<"x", "#t0">>, 0, 1, "b", "u")} ELSE {})
+                  \cup (IF Len(c[ft].e) > 1 THEN {Op("fmt", <<"x", "#t0">>, 0, Len(c[ft].e), "b", "u")} ELSE {})
+             ELSE {})
+     ELSE
+       {Op("ins", <<"x">>, i, 1, "", k) : i \in {0, Len(c)}, k \in {"E", "X"}}
+       \cup {Op("del", <<"x">>, i, 1, "", "u") : i \in 0..(Len(c) - 1)}
+       \cup (IF Len(c) >= 2 THEN {Op("del", <<"x">>, 0, 2, "", "u")} ELSE {})
+       \cup (IF fe # 0
+             THEN {Op("set", <<"x", "#e0">>, 0, 1, key, "u") : key \in {"id", "cl"}}
+                  \cup {Op("rem", <<"x", "#e0">>, 0, 1, XKeyName(x), "u") : x \in {y \in 1..2 : c[fe].mm[y] # 0}}
+                  \cup {Op("ins", <<"x", "#e0">>, i, 1, "", k) : i \in {0, Len(c[fe].e)}, k \in {"E", "X"}}
+                  \cup {Op("del", <<"x", "#e0">>, i, 1, "", "u") : i \in 0..(Len(c[fe].e) - 1)}
+             ELSE {})
+       \cup (IF ft # 0
+             THEN {Op("ins", <<"x", "#t0">>, i, 1, "", "u") : i \in {0, Len(c[ft].e)}}
+                  \cup {Op("del", <<"x", "#t0">>, i, 1, "", "u") : i \in {0, Len(c[ft].e) - 1} \cap 0..(Len(c[ft].e) - 1)}
+                  \cup (IF Len(c[ft].e) > 0 THEN {Op("fmt", <<"x", "#t0">>, 0, 1, "b", "u")} ELSE {})
+                  \cup (IF Len(c[ft].e) > 1 THEN {Op("fmt", <<"x", "#t0">>, 0, Len(c[ft].e), "b", "u"),
+                                                   Op("fmt", <<"x", "#t0">>, Len(c[ft].e) - 1, 1, "b", "u")} ELSE {})
+             ELSE {})
+
+FMenuX(c) ==
+  LET fe == FirstK(c, "E")
+      ft == FirstK(c, "T")
+  IN {Op("ins", <<"x">>, 0, 1, "", "E")}
+     \cup (IF Len(c) > 0 THEN {Op("del", <<"x">>, 0, 1, "", "u")} ELSE {})
+     \cup (IF fe # 0 THEN {Op("set", <<"x", "#e0">>, 0, 1, "id", "u")} \cup (IF Pre THEN {} ELSE {Op("ins", <<"x", "#e0">>, 0, 1, "", "X")}) ELSE {})
+     \cup (IF ft # 0 THEN {Op("ins", <<"x", "#t0">>, 0, 1, "", "u")}
+                          \cup (IF Len(c[ft].e) > 0 THEN {Op("del", <<"x", "#t0">>, 0, 1, "", "u")} ELSE {})
+                          \cup (IF Len(c[ft].e) > 0 /\ ~Pre THEN {Op("fmt", <<"x", "#t0">>, 0, 1, "b", "u")} ELSE {})
+           ELSE {})
+
 Apply(c, o, t) ==
-  IF Kind = "t" THEN
+  IF Kind = "x" THEN ApplyX(c, o, t)
+  ELSE IF Kind = "t" THEN
      (IF o.op = "ins" THEN InsAt(c, Min(o.i, Len(c)), [j \in 1..o.n |-> t + j - 1])
-      ELSE IF Len(c) = 0 THEN c ELSE RemAt(c, Min(o.i, Len(c) - 1) + 1))
+      ELSE IF Len(c) = 0 THEN c ELSE ClampDel(c, o.i, o.n))
   ELSE IF Kind = "a" THEN
      (IF Len(o.p) = 1 THEN
          (IF o.op = "ins" THEN InsAt(c, Min(o.i, Len(c)),
@@ -78,9 +182,12 @@ Apply(c, o, t) ==
 
 (* tracked-edit menu in content c *)
 Menu(c) ==
-  IF Kind = "t" THEN
+  IF Kind = "x" THEN MenuX(c)
+  ELSE IF Kind = "t" THEN
      {Op("ins", <<"t">>, i, 1, "", "u") : i \in 0..Len(c)} \cup {Op("ins", <<"t">>, 0, 2, "", "u")}
      \cup {Op("del", <<"t">>, i, 1, "", "u") : i \in 0..(Len(c) - 1)}
+     \* wiggle: also ranges of two (a squashed run deleted as a whole, then re-created as ONE block)
+     \cup (IF Shape = "wiggle" THEN {Op("del", <<"t">>, i, 2, "", "u") : i \in 0..(Len(c) - 2)} ELSE {})
   ELSE IF Kind = "a" THEN
      {Op("ins", <<"a">>, i, 1, "", "u") : i \in 0..Len(c)}
      \cup (IF FirstM(c) = 0 THEN {Op("ins", <<"a">>, i, 1, "", "M") : i \in {0, Len(c)}} ELSE {})
@@ -103,7 +210,8 @@ Menu(c) ==
 
 (* foreign-edit menu (smaller) *)
 FMenu(c) ==
-  IF Kind = "t" THEN
+  IF Kind = "x" THEN FMenuX(c)
+  ELSE IF Kind = "t" THEN
      {Op("ins", <<"t">>, i, 1, "", "u") : i \in {0, Len(c)}}
      \cup {Op("del", <<"t">>, i, 1, "", "u") : i \in {0, Len(c) - 1} \cap 0..(Len(c) - 1)}
   ELSE IF Kind = "a" THEN
@@ -122,35 +230,44 @@ Step(o, r, origin) == [a |-> "uop", op |-> o.op, r |-> r, p |-> o.p, i |-> o.i, 
 Adjust(st, o, t) == [i \in 1..Len(st) |-> Entry(Apply(st[i].v, o, t), FALSE)]
 ForeignAdj(MM, o, t) == [ust |-> Adjust(MM.ust, o, t), rst |-> Adjust(MM.rst, o, t), last |-> MM.last]
 
-Done == nE = MaxE /\ nUR = MaxUR /\ pend = <<>> /\ lastK # "T"
+RECURSIVE Rep(_, _)
+Rep(k, s) == IF k = 0 THEN <<>> ELSE s \o Rep(k - 1, s)
+Word(p, j) == Rep(p, <<TRUE>>) \o Rep(j, <<FALSE, TRUE>>) \o <<TRUE, TRUE, FALSE, FALSE>>
+Wiggle == Shape = "wiggle"
+
+Done == IF Wiggle THEN nE = MaxE /\ wq = <<>> /\ pend = <<>>
+        ELSE nE = MaxE /\ nUR = MaxUR /\ pend = <<>> /\ lastK # "T"
 
 Tracked(o) ==
   /\ nE < MaxE
+  /\ Wiggle => (nUR = 0 /\ lastK # "E")
   /\ C' = Apply(C, o, tok) /\ tok' = tok + 2
   /\ M' = Capture(M, C, PredictExtend(M, now, 500), now)
   /\ nE' = nE + 1 /\ slots' = slots + 1 /\ lastK' = "E" /\ prev' = <<>>
   /\ hist' = Append(hist, Step(o, 1, "U"))
-  /\ UNCHANGED <<now, nUR, nF, nEmpty, nStop, pend, clean>>
+  /\ UNCHANGED <<now, nUR, nF, nEmpty, nStop, pend, clean, wq>>
 
 Tick ==
   /\ lastK = "E" /\ nE < MaxE
   /\ now' = now + 600 /\ lastK' = "T"
   /\ hist' = Append(hist, [a |-> "tick", ms |-> 600])
-  /\ UNCHANGED <<C, M, tok, nE, nUR, nF, nEmpty, nStop, pend, slots, clean, prev>>
+  /\ UNCHANGED <<C, M, tok, nE, nUR, nF, nEmpty, nStop, pend, slots, clean, prev, wq>>
 
 UStop ==
   /\ UseStop /\ nStop = 0 /\ lastK = "E" /\ nE < MaxE
   /\ M' = Stop(M) /\ lastK' = "T" /\ nStop' = 1
   /\ hist' = Append(hist, [a |-> "ustop", r |-> 1])
-  /\ UNCHANGED <<C, tok, now, nE, nUR, nF, nEmpty, pend, slots, clean, prev>>
+  /\ UNCHANGED <<C, tok, now, nE, nUR, nF, nEmpty, pend, slots, clean, prev, wq>>
 
 Pop(undo) ==
   LET st  == IF undo THEN M.ust ELSE M.rst
       det == Determined(st, C)
       ret == IF det THEN ExpectRet(st, C) ELSE Len(st) > 0
       C2  == IF det THEN ExpectView(st, C) ELSE IF Len(st) > 0 THEN st[Len(st)].v ELSE C
-  IN /\ nUR < MaxUR /\ lastK # "T"
-     /\ (Len(st) > 0 \/ nEmpty = 0)
+  IN /\ lastK # "T"
+     /\ IF Wiggle THEN nE = MaxE /\ wq # <<>> /\ Head(wq) = undo
+                  ELSE nUR < MaxUR /\ (Len(st) > 0 \/ nEmpty = 0)
+     /\ wq' = IF Wiggle THEN Tail(wq) ELSE wq
      /\ nEmpty' = IF Len(st) = 0 THEN 1 ELSE nEmpty
      /\ C' = C2
      /\ M' = PopApply(M, undo, C, ret, Len(st) - 1)
@@ -165,7 +282,7 @@ ForeignLocal(o) ==
   /\ M' = ForeignAdj(M, o, tok)
   /\ nF' = nF + 1 /\ slots' = slots + 1 /\ lastK' = "O" /\ clean' = FALSE /\ prev' = <<>>
   /\ hist' = Append(hist, Step(o, 1, IF nF = 0 THEN "X" ELSE ""))
-  /\ UNCHANGED <<now, nE, nUR, nEmpty, nStop, pend>>
+  /\ UNCHANGED <<now, nE, nUR, nEmpty, nStop, pend, wq>>
 
 (* replica 2 edits (after catching up with replica 1, or concurrently without); delivered to 1 later *)
 RemoteEdit(o, synced) ==
@@ -173,7 +290,7 @@ RemoteEdit(o, synced) ==
   /\ pend' = <<o, slots + 1>> /\ nF' = nF + 1 /\ slots' = slots + 1 /\ lastK' = "O"
   /\ hist' = (IF synced THEN Append(hist, [a |-> "sync", f |-> 1, t |-> 2, how |-> "state", sv |-> "own"]) ELSE hist)
              \o << Step(o, 2, "") >>
-  /\ UNCHANGED <<C, M, tok, now, nE, nUR, nEmpty, nStop, clean, prev>>
+  /\ UNCHANGED <<C, M, tok, now, nE, nUR, nEmpty, nStop, clean, prev, wq>>
 
 RemoteDeliver ==
   /\ pend # <<>> /\ lastK # "T"
@@ -181,22 +298,24 @@ RemoteDeliver ==
   /\ M' = ForeignAdj(M, pend[1], tok)
   /\ pend' = <<>> /\ lastK' = "O" /\ clean' = FALSE /\ prev' = <<>>
   /\ hist' = Append(hist, [a |-> "dlv", r |-> 1, u |-> <<pend[2]>>, enc |-> "v1", shape |-> "flat", diff |-> FALSE])
-  /\ UNCHANGED <<now, nE, nUR, nF, nEmpty, nStop, slots>>
+  /\ UNCHANGED <<now, nE, nUR, nF, nEmpty, nStop, slots, wq>>
 
 Next ==
   /\ ~Done
   /\ \/ \E o \in Menu(C) : Tracked(o)
      \/ Tick \/ UStop
      \/ Pop(TRUE) \/ Pop(FALSE)
-     \/ \E o \in FMenu(C) : ForeignLocal(o)
-     \/ \E o \in FMenu(C) : RemoteEdit(o, TRUE)
-     \/ \E o \in {x \in FMenu(C) : x.op \in {"ins", "set"} /\ Len(x.p) = 1} : RemoteEdit(o, FALSE)
+     \* wiggle: the other origins act while the outer step is undone / redone (after the first call)
+     \/ (Wiggle => nUR > 0) /\ \E o \in FMenu(C) : ForeignLocal(o)
+     \/ (Wiggle => nUR > 0) /\ \E o \in FMenu(C) : RemoteEdit(o, TRUE)
+     \/ ~Wiggle /\ \E o \in {x \in FMenu(C) : x.op \in {"ins", "set"} /\ Len(x.p) = 1} : RemoteEdit(o, FALSE)
      \/ RemoteDeliver
 
 Init ==
   /\ C = C0 /\ M = EmptyMgr /\ tok = 1 /\ now = 1000
   /\ nE = 0 /\ nUR = 0 /\ nF = 0 /\ nEmpty = 0 /\ nStop = 0 /\ lastK = "" /\ pend = <<>> /\ slots = 0
   /\ clean = TRUE /\ prev = <<>> /\ hist = <<>>
+  /\ wq \in (IF Wiggle THEN {Word(p, j) : p \in 1..MaxP, j \in 1..MaxW} ELSE {<<>>})
 
 Spec == Init /\ [][Next]_vars
 
@@ -217,4 +336,7 @@ InvNearest == clean /\ ExpectRet(M.ust, C) =>
                  /\ \A i \in (Target(M.ust, C) + 1)..Len(M.ust) : M.ust[i].v = C
 (* stacks never hold more entries than steps were captured / calls made *)
 InvBounded == Len(M.ust) <= nE + nUR /\ Len(M.rst) <= nUR
+(* wiggle: redoing what was just undone and undoing it again returns to the same content (checked through InvRoundTrip at *)
+(* every R of the word); the word is consumed completely                                                              *)
+InvWord == Wiggle => Len(wq) <= MaxP + 2 * MaxW + 4
 =============================================================================
